@@ -142,7 +142,7 @@ Groups ==
   CASE Task = "laws" -> {[k |-> "laws"]}
     [] Task = "table8" -> {[k |-> "t8", ty |-> t, a |-> a] : t \in {u \in Types : u.w = 8}, a \in 0..255}
     [] Task = "wide" -> {[k |-> "wide", ty |-> t, op |-> op] : t \in {u \in Types : u.w > 8}, op \in ArithOps \cup BranchOps \cup {"to_string"}}
-    [] Task = "literals" -> {[k |-> "lit", ty |-> t] : t \in Types}
+    [] Task = "literals" -> {[k |-> "lit", ty |-> t] : t \in Types} \cup {[k |-> "f32lit"]} \cup {[k |-> "f32const", name |-> c] : c \in {"max", "bnd", "tie", "p128", "p127"}}
     [] Task = "floats" -> {[k |-> "flt", w |-> w] : w \in {32, 64}}
 
 Init == grp \in Groups /\ row = NoRow
@@ -174,6 +174,39 @@ LitCases(t) ==
    [neg |-> FALSE, digits |-> Append(mp, 0)]}
    \cup (IF mn # <<0>> THEN {[neg |-> TRUE, digits |-> DecDec(mn)]} ELSE {})
 
+(* Float32 literals: "accepted exactly when it stays finite after narrowing".  The literal is read to the  *)
+(* nearest binary64 and then narrowed to the nearest binary32 (ties to even both times).  On integer-valued  *)
+(* decimal literals that is a comparison of digit strings with one constant: the largest binary32 is        *)
+(* 2^128 - 2^104; everything below T = 2^128 - 2^103 narrows to it, T itself is a tie that goes to 2^128    *)
+(* (the even neighbour) = infinity; and a decimal within half a binary64 ulp (2^74) of T reads as T.        *)
+(* So: finite iff value < B = 2^128 - 2^103 - 2^74 (the tie B reads as T: the even binary64 neighbour).     *)
+Pow2(k, n) == [i \in 1..n |-> IF i = k + 1 THEN 1 ELSE 0]
+F32T == BvSub(Pow2(128, 132), Pow2(103, 132))
+F32B == BvSub(F32T, Pow2(74, 132))
+F32Max == BvSub(Pow2(128, 132), Pow2(104, 132))
+\* their decimal expansions, written out; tied to the bit patterns by FloatConstants (Horner, checked by TLC in the
+\* "literals" task: converting 132-bit patterns to decimal by repeated division takes TLC twenty minutes)
+F32MaxD == <<3, 4, 0, 2, 8, 2, 3, 4, 6, 6, 3, 8, 5, 2, 8, 8, 5, 9, 8, 1, 1, 7, 0, 4, 1, 8, 3, 4, 8, 4, 5, 1, 6, 9, 2, 5, 4, 4, 0>>
+F32BD == <<3, 4, 0, 2, 8, 2, 3, 5, 6, 7, 7, 9, 7, 3, 3, 6, 4, 2, 7, 4, 8, 0, 7, 3, 4, 6, 3, 9, 7, 9, 5, 6, 1, 7, 1, 3, 6, 6, 4>>
+F32TD == <<3, 4, 0, 2, 8, 2, 3, 5, 6, 7, 7, 9, 7, 3, 3, 6, 6, 1, 6, 3, 7, 5, 3, 9, 3, 9, 5, 4, 5, 8, 1, 4, 2, 5, 6, 8, 4, 4, 8>>
+P128D == <<3, 4, 0, 2, 8, 2, 3, 6, 6, 9, 2, 0, 9, 3, 8, 4, 6, 3, 4, 6, 3, 3, 7, 4, 6, 0, 7, 4, 3, 1, 7, 6, 8, 2, 1, 1, 4, 5, 6>>
+P127D == <<1, 7, 0, 1, 4, 1, 1, 8, 3, 4, 6, 0, 4, 6, 9, 2, 3, 1, 7, 3, 1, 6, 8, 7, 3, 0, 3, 7, 1, 5, 8, 8, 4, 1, 0, 5, 7, 2, 8>>
+\* Horner's rule one digit per TLC step (group "f32const": states are evaluated strictly, whereas an accumulating
+\* operator or recursive function is evaluated lazily by TLC and re-evaluates its accumulator exponentially often)
+Mul10(a) == BvAdd(Shl1(Shl1(Shl1(a))), Shl1(a))
+F32Consts == [max |-> [d |-> F32MaxD, b |-> F32Max], bnd |-> [d |-> F32BD, b |-> F32B], tie |-> [d |-> F32TD, b |-> F32T],
+              p128 |-> [d |-> P128D, b |-> Pow2(128, 132)], p127 |-> [d |-> P127D, b |-> Pow2(127, 132)]]
+HornerStep(r) == [r EXCEPT !.i = r.i + 1, !.acc = BvAdd(Mul10(r.acc), ToBv(F32Consts[r.name].d[r.i + 1], 132))]
+FloatConstants == (row.k = "acc" /\ row.i = Len(F32Consts[row.name].d)) => row.acc = F32Consts[row.name].b
+F32Finite(digits) == DigitsLe(digits, DecDec(F32BD))
+F32LitCases ==
+  LET pts == {F32MaxD, F32BD, F32TD, P128D, P127D}
+      around == UNION {{d, DecInc(d), DecDec(d)} : d \in pts}
+      more == {<<0>>, <<1>>, <<1, 6, 7, 7, 7, 2, 1, 7>>, <<3>> \o [i \in 1..38 |-> 0], <<4>> \o [i \in 1..38 |-> 0],
+               <<3, 4, 0, 2, 8, 2, 3, 5>> \o [i \in 1..31 |-> 0], <<3, 4, 0, 2, 8, 2, 3, 6>> \o [i \in 1..31 |-> 0],
+               <<3, 5>> \o [i \in 1..37 |-> 0], [i \in 1..39 |-> 9], <<1>> \o [i \in 1..39 |-> 0]}
+  IN {[neg |-> n, digits |-> d] : n \in BOOLEAN, d \in around \cup more}
+
 (* IEEE comparison on special values: class, sign, rank of the magnitude *)
 FloatVals == {[n |-> "pzero", c |-> "num", neg |-> FALSE, r |-> 0], [n |-> "nzero", c |-> "num", neg |-> TRUE, r |-> 0],
               [n |-> "psub", c |-> "num", neg |-> FALSE, r |-> 1], [n |-> "nsub", c |-> "num", neg |-> TRUE, r |-> 1],
@@ -187,7 +220,7 @@ FloatRel(op, x, y) ==
   ELSE CASE op = "eq" -> Signed(x) = Signed(y) [] op = "lt" -> Signed(x) < Signed(y) [] op = "gt" -> Signed(x) > Signed(y)
 
 Next ==
-  /\ row = NoRow
+  /\ (row = NoRow \/ (grp.k = "f32const" /\ row.k = "acc"))
   /\ UNCHANGED grp
   /\ CASE grp.k = "laws" -> row' = [k |-> "laws-done"]
        [] grp.k = "t8" -> \/ \E op \in ArithOps \cup BranchOps : row' = Row8(grp.ty, grp.a, op)
@@ -199,11 +232,16 @@ Next ==
        [] grp.k = "lit" -> \E c \in LitCases(grp.ty) :
             row' = [k |-> "lit", ty |-> grp.ty.n, neg |-> c.neg, digits |-> c.digits,
                     accept |-> InRange(c.neg, c.digits, grp.ty.w, grp.ty.s)]
+       [] grp.k = "f32const" ->
+            IF row = NoRow THEN row' = [k |-> "acc", name |-> grp.name, i |-> 0, acc |-> Zero(132)]
+            ELSE row.i < Len(F32Consts[row.name].d) /\ row' = HornerStep(row)
+       [] grp.k = "f32lit" -> \E c \in F32LitCases :
+            row' = [k |-> "f32lit", neg |-> c.neg, digits |-> c.digits, accept |-> F32Finite(c.digits)]
        [] grp.k = "flt" -> \E x \in FloatVals, y \in FloatVals, op \in BranchOps :
             row' = [k |-> "flt", w |-> grp.w, op |-> op, x |-> x.n, y |-> y.n, first |-> FloatRel(op, x, y)]
 Spec == Init /\ [][Next]_vars
 
-Report == (row # NoRow /\ row.k # "laws-done") => PrintT(<<"REPLAY", ToJson(row)>>)
+Report == (row # NoRow /\ row.k \notin {"laws-done", "acc"}) => PrintT(<<"REPLAY", ToJson(row)>>)
 
 ----------------------------------------------------------------------------
 (* The operators equal mathematics where TLC can count.                    *)
